@@ -10,6 +10,26 @@ def tan_(x):
     return UF['tan'](x) if is_sym(x) else math.tan(x)
 
 
+def cos_(x):
+    return UF['cos'](x) if is_sym(x) else math.cos(x)
+
+
+def sin_(x):
+    return UF['sin'](x) if is_sym(x) else math.sin(x)
+
+
+def const_angle_cos_sin(angle):
+    """cos and sin of a constant angle as the same uninterpreted applications the engine produces for
+    math.cos(angle) in the code (proof mode), or their values (concrete mode)."""
+    from pyvc.sym import CTX
+    if CTX.path is not None:
+        import z3
+        from pyvc.sym import lift, Sym
+        a = lift(float(angle))
+        return Sym(UF['cos'].uf(a)), Sym(UF['sin'].uf(a))
+    return math.cos(angle), math.sin(angle)
+
+
 def atan_(x):
     return UF['atan'](x) if is_sym(x) else math.atan(x)
 
